@@ -74,6 +74,7 @@ func runPool(sc *PoolSc) *poolObs {
 	pool := flyt.NewWorkerPool(sc.Size)
 	w := sc.workers()
 	var mu sync.Mutex
+	var lateWG sync.WaitGroup
 	var parkedL []*parked
 	wake := make(chan struct{}, 1)
 	var inflight, completed int32
@@ -212,9 +213,18 @@ func runPool(sc *PoolSc) *poolObs {
 				first := lateID
 				lateID += sc.Late
 				var lateDone, stopLate int32
+				lateWG.Add(1)
 				go func() {
+					defer lateWG.Done()
 					for j := 0; j < sc.Late && atomic.LoadInt32(&stopLate) == 0; j++ {
-						pool.Submit(body(ri, first+j, false))
+						if p, v := recoverCall(func() { pool.Submit(body(ri, first+j, false)) }); p {
+							mu.Lock()
+							if obs.APIPanic == "" {
+								obs.APIPanic = fmt.Sprintf("round %d: Submit (while a Wait is in progress) panicked: %v", ri, v)
+							}
+							mu.Unlock()
+							break
+						}
 						atomic.AddInt32(&obs.LateSubmitted, 1)
 					}
 					atomic.StoreInt32(&lateDone, 1)
@@ -257,6 +267,7 @@ func runPool(sc *PoolSc) *poolObs {
 	}
 	// late tasks may still be queued when the last Wait returned early in a broken pool; in a
 	// correct one Wait covers them too
+	lateWG.Wait() // every Submit call has returned before the pool is closed
 	if p, v := recoverCall(func() { pool.Wait(); pool.Close() }); p && obs.APIPanic == "" {
 		obs.APIPanic = fmt.Sprintf("final Wait/Close panicked: %v", v)
 	}
